@@ -1,0 +1,31 @@
+//go:build verif
+
+package chain
+
+import (
+	"context"
+
+	"0chain.net/chaincore/block"
+	"0chain.net/chaincore/round"
+)
+
+// Thin exported wrappers for the verification harness (/verif). No logic.
+
+// VerifFinalizeRound exposes finalizeRound.
+func (c *Chain) VerifFinalizeRound(ctx context.Context, r round.RoundI) { c.finalizeRound(ctx, r) }
+
+// VerifTakeFinalizeBlock receives the next block finalizeRound hands to the finalized-blocks
+// worker; reply passes the worker's verdict back. ok=false when ctx ends first.
+func (c *Chain) VerifTakeFinalizeBlock(ctx context.Context) (b *block.Block, reply func(error), ok bool) {
+	select {
+	case fbr := <-c.finalizedBlocksChannel:
+		return fbr.block, func(err error) { fbr.resultC <- err }, true
+	case <-ctx.Done():
+		return nil, nil, false
+	}
+}
+
+// VerifCommonAncestor exposes commonAncestor.
+func (c *Chain) VerifCommonAncestor(ctx context.Context, b1, b2 *block.Block) *block.Block {
+	return c.commonAncestor(ctx, b1, b2)
+}
